@@ -223,6 +223,9 @@ def run_case(case, ctx):
         q = Quantity(mknum(case["amt"]), u)
         amt = F(q.amount)          # stored amount (already on the grid for quantized types)
         res = q.convert(v)
+        if res.unit is not v:
+            ctx.viol(f"pair/unit/{case['u']}->{case['v']}", f"{q!r}.convert({v}) = {res!r}: not expressed in {v}")
+            return
         exp = amt * su / sv
         if t in refdata.QUANTUM:
             qv = refdata.QUANTUM[t] / sv
